@@ -18,7 +18,7 @@ def run(ctx):
     only = [x for x in os.environ.get("VERIF_C06_STAGES", "").split(",") if x]   # debugging aid: subset of page,sweep,idxa,idxk
 
     def stages(ctx, mult, suffix, off):
-        hdr = HDR.format(imports="model.C06_model model.C06_unix model.C06_run")
+        hdr = HDR.format(imports="model.C05_model model.C06_model model.C06_unix model.C06_mounts model.C06_run")
 
         def stage(name, *a, **kw):
             if only and not any(name.startswith("c06" + o) for o in only):
